@@ -190,6 +190,10 @@ def documents(thorough):
     yield "second language first in time", {"langs": two, "cues": {"en-US": [(5000, 6000, ["late"])], "fr": [(1000, 2000, ["tôt"])]}}
     yield "three languages", {"langs": two + [("DECC", "de")], "variant": variants[2], "cues": {
         "en-US": [(1000, 2000, ["one"])], "fr": [(1000, None, ["un"])], "de": [(1500, 2500, ["eins"]), (2500, None, ["zwei"])]}}
+    yield "one language code a prefix of the other", {"langs": [("ENUS", "en-US"), ("ENXX", "en")], "variant": variants[1], "cues": {
+        "en-US": [(1000, 2000, ["american"]), (5000, None, ["later"])], "en": [(1000, 2000, ["plain"]), (3000, 4000, ["middle"])]}}
+    yield "the shorter code first", {"langs": [("ENXX", "en"), ("ENUS", "en-US")], "cues": {
+        "en": [(1000, 2000, ["plain"])], "en-US": [(1500, 2500, ["american"]), (3000, None, ["later"])]}}
     yield "language by lang attribute", {"langs": [("X", "fr"), ("Y", "de")], "variant": {"lang_attr": True, "upper": False, "closed": True},
                                          "cues": {"fr": [(1000, 2000, ["salut"])], "de": [(1000, 2000, ["hallo"]), (3000, None, ["welt"])]}}
     if thorough:
@@ -346,6 +350,9 @@ def trip_sets():
         (8 * S, 9 * S, ["x & ", ("s", True, it), "<y>", ("s", False, it), " &amp; \"q\""]), (10 * S, 11 * S, ["last"])]}
     yield "two languages", {"en-US": [(S, 3 * S, ["a"]), (4 * S, 5 * S, ["b", None, "b2"])],
                             "fr": [(2 * S, 3 * S, ["c"]), (3 * S, 4 * S + 500000, [("s", True, it), "d", ("s", False, it)]), (6 * S, 7 * S, ["e"])]}
+    # one language code a prefix of another, in both orders: each keeps its own cues and its own label
+    yield "language codes en-US then en", {"en-US": [(3 * S, 4 * S, ["american"])], "en": [(S, 2 * S, ["plain"]), (5 * S, 6 * S, ["two"])]}
+    yield "language codes en then en-US", {"en": [(S, 2 * S, ["plain"]), (5 * S, 6 * S, ["two"])], "en-US": [(3 * S, 4 * S, ["american"])]}
     yield "sub-millisecond instants", {"en-US": [(1000999, 2000001, ["x"]), (2000999, 3 * S, ["y"]), (3600 * S, 3601 * S, ["z"])]}
 
 
@@ -410,8 +417,10 @@ def roundtrip(ctx, bad):
             continue
         except AnalysisError as e:
             raise AnalysisError(f"SAMI round trip cannot be folded on the set '{label}': {e}")
-        if list(got) != list(langs):
-            bad["roundtrip"].append(dict(case, languages=list(got), required=list(langs)))
+        # (a SAMI document lists its paragraphs in time order: languages come back in order of first appearance there)
+        order = sorted(langs, key=lambda l: (langs[l][0][0] // 1000, list(langs).index(l)))
+        if list(got) != order:
+            bad["roundtrip"].append(dict(case, languages=list(got), required=order))
             continue
         problem = None
         for lang, caps in langs.items():
